@@ -15,14 +15,18 @@ X == V(1)
 Alphabet == { G(X), A("!"), A("fail"), C("q", <<X>>), C("call", <<A("!")>>), C("call", <<C(",", <<G(X), A("!")>>)>>),
               C("\\+", <<G(X)>>), C("once", <<G(X)>>), C(";", <<C("->", <<G(X), A("true")>>), C("w", <<A("e")>>)>>),
               C(";", <<G(X), C("=", <<X, A("d")>>)>>), C("w", <<X>>) }
+\* the goals that cut, commit or leave choice points: longer bodies are enumerated over this sub-alphabet
+CutAlphabet == { G(X), A("!"), C("q", <<X>>), C("once", <<G(X)>>), C(";", <<C("->", <<G(X), A("true")>>), C("w", <<A("e")>>)>>),
+                 C("call", <<C(",", <<G(X), A("!")>>)>>) }
 RECURSIVE Conj(_)
 Conj(s) == IF Len(s) = 0 THEN A("true") ELSE IF Len(s) = 1 THEN s[1] ELSE C(",", <<s[1], Conj(Tail(s))>>)
-Seqs(n) == UNION { [1..k -> Alphabet] : k \in 0..n }
 
 CONSTANTS N1,       \* maximal length of the first clause body
           N2,       \* maximal length of the second clause body
           ND,       \* maximal length of each branch of a top-level disjunctive first body (0: none)
-          NCTX      \* number of calling contexts used (1..8)
+          NCTX,     \* number of calling contexts used (1..8)
+          ALPHA     \* "full" | "cuts": the alphabet of body goals
+Seqs(n) == UNION { [1..k -> (IF ALPHA = "full" THEN Alphabet ELSE CutAlphabet)] : k \in 0..n }
 
 Bodies1 == { Conj(s) : s \in Seqs(N1) } \cup
            (IF ND = 0 THEN {} ELSE { C(";", <<Conj(s), Conj(t)>>) : s \in Seqs(ND) \ {<<>>}, t \in Seqs(ND) \ {<<>>} })
